@@ -108,5 +108,5 @@ def oracle(case):
 
 
 SUBS = [
-    Sub('inverse', strategy(), oracle, quick=1600, thorough=32000),
+    Sub('inverse', strategy(), oracle, quick=1600, thorough=32000, use_target=True),
 ]
